@@ -135,6 +135,8 @@ fn nested_doc_for(v: &[Tri]) -> Yaml {
 
 pub fn run_c06(ctx: &mut Ctx, _known: &Known) {
     ctx.exhaustive = true;
+    crate::suites3::same_field_triples(ctx, "C06", if ctx.tier == "thorough" { 1 } else { 3 });
+    crate::suites3::and_blocks_over_arrays(ctx, "C06");
     c06_same_field(ctx);
     c06_rows_same_field(ctx);
     c06_key_quantifiers(ctx);
@@ -653,6 +655,7 @@ fn full_parens(c: &Cond) -> String {
 
 pub fn run_c05(ctx: &mut Ctx, _known: &Known) {
     ctx.exhaustive = true;
+    crate::suites3::cast_cast_or_chains(ctx, "C05");
     // identifiers: one-field predicates; names include words that begin with keyword letters
     let names = ["A", "B", "android", "order", "nothing", "allow", "offline", "note", "andy", "orb", "ofx", "allx", "inty", "strx", "fltx", "not_a", "or_b", "and.c",
         // keywords are lower case only: these are identifiers
@@ -914,6 +917,7 @@ pub fn pattern_rel(pat: &str, h: &str) -> Option<bool> {
 
 pub fn run_c07(ctx: &mut Ctx, _known: &Known) {
     ctx.exhaustive = true;
+    crate::suites3::same_field_triples(ctx, "C07", if ctx.tier == "thorough" { 1 } else { 2 });
     let alpha = ['a', 'b', 'A'];
     let needles = strings_upto(&alpha, if ctx.tier == "thorough" { 3 } else { 2 });
     let hays = strings_upto(&alpha, if ctx.tier == "thorough" { 4 } else { 3 });
@@ -1162,6 +1166,8 @@ fn field_num(y: &Yaml) -> Option<NumV> {
 
 pub fn run_c09(ctx: &mut Ctx, _known: &Known) {
     ctx.exhaustive = true;
+    crate::suites3::wide_numeric_matrix(ctx, "C09");
+    crate::suites3::cast_cast_or_chains(ctx, "C09");
     let int_consts: Vec<&str> = vec!["-9223372036854775808", "-1", "0", "1", "5", "9223372036854775807"];
     let flt_consts: Vec<&str> = vec!["0.0", "-0.0", "0.5", "2.5", "-1.5", "1e300", "9223372036854775808.0", "1.0"];
     let mut field_vals: Vec<Yaml> = vec![
@@ -2074,6 +2080,8 @@ fn small_values(depth: usize) -> Vec<Yaml> {
 
 pub fn run_c10(ctx: &mut Ctx, _known: &Known) {
     ctx.exhaustive = true;
+    crate::suites3::rows_field_twice(ctx, "C10");
+    crate::suites3::null_members_missing_path(ctx, "C10");
     let depth = if ctx.tier == "thorough" { 3 } else { 2 };
     // documents: {a: V, b: W} over small shapes
     let vals = small_values(depth);
@@ -3159,6 +3167,8 @@ fn c17_twins_and_long_lists(ctx: &mut Ctx) {
 }
 
 pub fn run_c17(ctx: &mut Ctx, _known: &Known) {
+    crate::suites3::rows_with_untabulated_entry(ctx, "C17");
+    crate::suites3::same_field_triples(ctx, "C17", if ctx.tier == "thorough" { 1 } else { 3 });
     c17_fixed(ctx);
     c17_rows_one_field(ctx);
     c17_twins_and_long_lists(ctx);
